@@ -92,6 +92,40 @@ impl Engine {
                 }
                 self.note(format!("burst {n}"));
             }
+            Op::Outage { by, events, attempts } => {
+                if !self.m.halted {
+                    let who = if *by == 0 || self.m.cfg.monitors.is_empty() { Caller::Admin } else { Caller::Monitor((*by - 1) % self.m.cfg.monitors.len() as u8) };
+                    self.do_breaker(&who);
+                    if self.m.halted {
+                        let inflight = self.m.packets.values().filter(|p| p.status == PStatus::Sent).count();
+                        for (sel, o) in events {
+                            if self.viol.is_some() {
+                                break;
+                            }
+                            self.do_resolve(*sel, o);
+                        }
+                        if inflight > 0 && !events.is_empty() {
+                            self.stats.flags.insert("ibc_outcome_while_halted");
+                        }
+                        for k in 0..*attempts {
+                            if self.viol.is_some() {
+                                break;
+                            }
+                            match k {
+                                0 => self.do_stake(&Caller::User(k), &Amt::Sci(5, 4), &Recip::Sender, None, &ExpSel::None, &Funds::Exact, None),
+                                1 => self.do_withdraw(&Caller::User(k), 0),
+                                2 => self.do_submit(&Caller::User(k), 2),
+                                _ => self.do_recover(&Caller::User(k), &RecMode::Plain, false),
+                            }
+                        }
+                        if self.viol.is_none() {
+                            self.do_resume(&Caller::Admin, &ResumeMode::Same);
+                        }
+                    }
+                    self.stats.flags.insert("outage");
+                }
+                self.note("outage".into());
+            }
             Op::Churn(n) => {
                 if !self.m.halted {
                     for i in 0..*n {
@@ -525,7 +559,7 @@ impl Engine {
         if let (Some(d), 1..=3) = (due, align) {
             let target = (d + align as u64).saturating_sub(2);
             if target > self.ch.now_s() {
-                self.ch.time_ns = target * 1_000_000_000;
+                self.ch.time_ns = target * 1_000_000_000 + (self.ch.time_ns % 1_000_000_000);
                 self.ch.height += 1;
                 self.ch.tx_index = 0;
             }
@@ -556,6 +590,8 @@ impl Engine {
         } else if !deadline_ok(now, self.m.cfg.batch_period) || !deadline_ok(now, self.m.cfg.unbonding) {
             // no property says whether an unrepresentable deadline is refused at configuration or at use
             (Expect::Err, vec!["C16"])
+        } else if now == due && self.subsecond_seen {
+            (Expect::Any, vec![])
         } else {
             (Expect::Ok, vec!["C06", "C19"])
         };
@@ -802,6 +838,7 @@ impl Engine {
                 None => (Expect::Err, vec!["C06"]),
                 Some(b) if b.status != BStatus::Submitted => (Expect::Err, vec!["C06"]),
                 Some(_) if due.map(|d| now < d).unwrap_or(true) => (Expect::Err, vec!["C06"]),
+                Some(_) if due == Some(now) && self.subsecond_seen => (Expect::Any, vec![]),
                 Some(_) => (Expect::Ok, vec!["C06", "C09"]),
             }
         };
@@ -1332,7 +1369,15 @@ impl Engine {
             ResumeMode::ZeroLst => (n0.max(1000), 0, r0),
             ResumeMode::Zero => (0, 0, 0),
             ResumeMode::Raw(a, b, c) => ((*a as u128) * 1_000_000, (*b as u128) * 1_000_000, *c as u128),
+            ResumeMode::One(w, k) => match w % 3 {
+                0 => (n0, l0, *k as u128),
+                1 => (n0 + *k as u128, l0, r0),
+                _ => (n0, if l0 == 0 { 0 } else { l0 + *k as u128 }, r0),
+            },
         };
+        if let ResumeMode::One(..) = mode {
+            self.stats.flags.insert("resume_one_total_replaced");
+        }
         // stay inside the exchange-rate domain [10^-3, 10^3] (with slack); (0,0) and l = 0 are allowed
         if l > 0 {
             if n == 0 || n > l.saturating_mul(300) || l > n.saturating_mul(300) {
@@ -1677,7 +1722,8 @@ impl Engine {
             }
             OwnAct::Accept => {
                 let ok = self.m.nominee.as_deref() == Some(sender.as_str()) && self.m.earliest.map(|t| now >= t).unwrap_or(false);
-                let exp = if ok { Expect::Ok } else { Expect::Err };
+                let open = ok && self.m.earliest == Some(now) && self.subsecond_seen;
+                let exp = if open { Expect::Any } else if ok { Expect::Ok } else { Expect::Err };
                 if let Some(t) = self.m.earliest {
                     if self.m.nominee.as_deref() == Some(sender.as_str()) && (now == t || now + 1 == t) {
                         self.stats.flags.insert("accept_at_boundary");
@@ -1723,6 +1769,18 @@ impl Engine {
                 None => now + 10,
             },
             TimeSel::Far => now + 40 * 86400,
+            TimeSel::Phase(ns) => {
+                let sub = self.ch.time_ns % 1_000_000_000;
+                let ns = *ns as u64 % 1_000_000_000;
+                let sec = if ns > sub { now } else { now + 1 };
+                self.ch.time_ns = sec * 1_000_000_000 + ns;
+                self.ch.height += 1;
+                self.ch.tx_index = 0;
+                self.stats.flags.insert("subsecond_block_time");
+                self.subsecond_seen = true;
+                self.note(format!("advance {:?} -> {}.{:09}", t, sec, ns));
+                return;
+            }
         };
         if target > now {
             self.ch.time_ns = target * 1_000_000_000 + (self.ch.time_ns % 1_000_000_000);
